@@ -256,13 +256,20 @@ fn big_changes_record(case: i64, alg: Algorithm, old: &str, new: &str) -> Value 
 pub fn drive_c04(a: &Args, out: &mut Out) {
     let mut rng = Rng::new(a.num("seed", 1));
     // inputs with more distinct tokens than a narrow integer can number
-    for &distinct in &[256usize, 65536] {
+    for &distinct in &[256usize, 65536, 0] {
         let mut x = String::new();
         for k in 0..distinct {
             x.push_str(&format!("l{}\n", k));
         }
-        let y = format!("{}l0\n", x);
+        let mut y = format!("{}l0\n", x);
         x.push_str("A\n");
+        if distinct == 0 {
+            // both sides below 65 536 tokens, together more than 65 536 distinct ones:
+            // 1 500 rewritten head lines in front of 63 000 common lines
+            let tail: String = (0..63_000).map(|k| format!("t{}\n", k)).collect();
+            x = (0..1500).map(|k| format!("a{}\n", k)).collect::<String>() + &tail;
+            y = (0..1500).map(|k| format!("b{}\n", k)).collect::<String>() + &tail;
+        }
         for alg in [Algorithm::Myers, Algorithm::Patience] {
             let case = out.next_case();
             out.emit(&big_changes_record(case, alg, &x, &y));
